@@ -12,7 +12,8 @@ CONSTANTS Sym,          \* segment alphabet, e.g. {"a","b","0",".","..","","a:0"
           FixValidate,  \* TRUE: creation accepts only Kafka-legal names (repaired tree); FALSE: any non-blank name (pinned tree)
           DevSlashOnly, \* deviation: the validator only refuses names containing "/"
           DevDotOnly,   \* deviation: the validator only refuses names having a "." or ".." segment
-          DevAllowColon \* deviation: the legal character set also admits ":"
+          DevAllowColon, \* deviation: the legal character set also admits ":"
+          DevDefaultPartsSkipsNameCheck \* deviation: partition count -1 ("broker default") is handled before, and instead of, the name check
 VARIABLES n1, n2, phase, hist
 vars == <<n1, n2, phase, hist>>
 Namespace == "ns"
@@ -67,12 +68,18 @@ LegalChars == {"a","b","c","d","e","f","g","h","i","j","k","l","m","n","o","p","
                "A","B","C","D","E","F","G","H","I","J","K","L","M","N","O","P","Q","R","S","T","U","V","W","X","Y","Z",
                "0","1","2","3","4","5","6","7","8","9",".","_","-"} \cup (IF DevAllowColon THEN {":"} ELSE {})
 LegalName(s) == s # "" /\ s # "." /\ s # ".." /\ Len(s) <= 249 /\ \A i \in 1..Len(s) : SubSeq(s, i, i) \in LegalChars
-Accepts(n) ==
+\* partition counts a creation request may carry: -1 = "use the broker default", 0 = invalid, 1, 2
+Counts == <<-1, 0, 1, 2>>
+NameOk(n) ==
   LET s == Render(n) IN
   IF DevSlashOnly THEN s # "" /\ Len(n) = 1
   ELSE IF DevDotOnly THEN s # "" /\ \A i \in DOMAIN n : n[i] \notin {".", ".."}
   ELSE IF FixValidate THEN LegalName(s)
   ELSE s # ""
+\* CreateTopic(name, partition count): `if !ValidTopicName(name) || NumPartitions <= 0 { reject }`
+AcceptsWith(n, c) == IF DevDefaultPartsSkipsNameCheck /\ c = -1 THEN TRUE ELSE NameOk(n) /\ c > 0
+\* a name is accepted when some creation request (any partition count) creates it; auto-creation always asks for a positive count
+Accepts(n) == \E i \in DOMAIN Counts : AcceptsWith(n, Counts[i])
 
 \* ---- the key functions ----------------------------------------------------------------------------
 SegFile == "segment-00000000000000000000.kfs"
@@ -106,6 +113,7 @@ C22_DisjointKeys == Done => P!C22_DisjointKeys
 C22_NoCapture == Done => P!C22_NoCapture
 
 View == <<n1, n2, phase>>
-EmitInput == (phase = "n2" /\ n2 = <<>>) => PrintT(<<"INPUT", ToJson(n1)>>)
+EmitInput == /\ (phase = "n1" /\ n1 = <<>>) => PrintT(<<"COUNTS", ToJson(Counts)>>)
+             /\ (phase = "n2" /\ n2 = <<>>) => PrintT(<<"INPUT", ToJson(n1)>>)
 EmitSched == EmitInput
 ====
